@@ -20,6 +20,7 @@ package contractcourt
 // here: spec/Arbitrator/ArbitratorTrace.tla is the judge.
 
 import (
+	"bytes"
 	"crypto/sha256"
 	"encoding/json"
 	"fmt"
@@ -34,7 +35,9 @@ import (
 	"testing"
 	"time"
 
+	"github.com/btcsuite/btcd/btcec/v2"
 	"github.com/btcsuite/btcd/chainhash/v2"
+	"github.com/btcsuite/btcd/txscript/v2"
 	"github.com/btcsuite/btcd/wire/v2"
 	"github.com/btcsuite/btcwallet/walletdb"
 	"github.com/lightningnetwork/lnd/chainntnfs"
@@ -68,7 +71,9 @@ type c13Line struct {
 	W    string   `json:"w"`    // write kind ("" if not a write)
 	N    int      `json:"n"`    // write number within the run
 	H    string   `json:"h"`    // htlc role: o | od | id | i | ""
-	K    string   `json:"k"`    // argument (settle/fail, spend kind, crash variant ...)
+	K    string   `json:"k"`    // argument (settle/fail, spend kind, crash variant, outpoint role ...)
+	Cb   int      `json:"cb"`   // Sweep: the input's sign descriptor carries a taproot control block
+	Wt   string   `json:"wt"`   // Sweep: witness type of the input (for humans)
 	St   string   `json:"st"`   // durable log state
 	Un   []c13Res `json:"un"`   // durable unresolved-contracts bucket
 	Rs   int      `json:"rs"`   // contract resolutions logged
@@ -99,7 +104,9 @@ var c13Roles = map[uint64]string{99: "o", 100: "od", 101: "id", 102: "i", 103: "
 // ---- scenarios ---------------------------------------------------------------
 
 type c13Scenario struct {
-	name      string
+	name      string // close scenario x channel type ("local", "alocal" = anchor, "tlocal" = taproot ...)
+	base      string // the close scenario
+	ctype     string // legacy | anchor | taproot
 	kind      string // local | remote | breach | coop
 	userClose bool
 	htlcs     []channeldb.HTLC // the HTLCs of the commitment that confirms (and of ours)
@@ -123,12 +130,64 @@ type c13Scenario struct {
 	successTx  *wire.MsgTx
 	successOut wire.OutPoint
 	preimage   lntypes.Preimage
+
+	// zero-fee channel types: the second-level transactions that confirm are the sweeper's re-signed,
+	// aggregated ones (wallet input + change output first, the HTLC input/output pair at index 1), so the
+	// second-level outputs that exist on chain are not the outputs of the pre-signed transactions
+	aggTimeoutTx *wire.MsgTx
+	aggSuccessTx *wire.MsgTx
+	realOut2     wire.OutPoint // the second-level output of "o" that is created on chain
+	realIn2      wire.OutPoint // the second-level output of "i" that is created on chain
+	anchorOp     wire.OutPoint
+	outRes       *lnwallet.OutgoingHtlcResolution
+	inRes        *lnwallet.IncomingHtlcResolution
+	anchorRes    *lnwallet.AnchorResolution
+	roles        map[wire.OutPoint]string
+}
+
+// c13Typed: the scenarios that exist for every channel type (prefix a = anchor, t = taproot).
+var c13Typed = map[string]bool{"local": true, "remote": true, "contest": true, "rcontest": true,
+	"claim": true, "success": true}
+
+func c13SplitName(name string) (base, ctype string) {
+	if len(name) > 1 && c13Typed[name[1:]] {
+		switch name[0] {
+		case 'a':
+			return name[1:], "anchor"
+		case 't':
+			return name[1:], "taproot"
+		}
+	}
+	return name, "legacy"
+}
+
+func (s *c13Scenario) zeroFee() bool { return s.ctype != "legacy" }
+
+func (s *c13Scenario) chanType() channeldb.ChannelType {
+	switch s.ctype {
+	case "anchor":
+		return channeldb.SingleFunderTweaklessBit | channeldb.AnchorOutputsBit | channeldb.ZeroHtlcTxFeeBit
+	case "taproot":
+		return channeldb.SingleFunderTweaklessBit | channeldb.AnchorOutputsBit | channeldb.ZeroHtlcTxFeeBit |
+			channeldb.SimpleTaprootFeatureBit
+	}
+	return channeldb.SingleFunderTweaklessBit
+}
+
+// role names an outpoint the way the model does (a dumb lookup).
+func (s *c13Scenario) role(op wire.OutPoint) string {
+	if r, ok := s.roles[op]; ok {
+		return r
+	}
+	return "other"
 }
 
 const c13CloseHeight = 5
 
 func c13NewScenario(name string) *c13Scenario {
 	s := &c13Scenario{name: name, preimageOf: map[lntypes.Hash]lntypes.Preimage{}}
+	s.base, s.ctype = c13SplitName(name)
+	name = s.base
 	for i := range s.preimage {
 		s.preimage[i] = 7
 	}
@@ -166,6 +225,11 @@ func c13NewScenario(name string) *c13Scenario {
 		exp = 20
 		s.spend1At, s.spend2At = 22, 26
 		s.maxHeight = 27
+	case "rcontest":
+		s.kind = "remote"
+		exp = 20
+		s.spend1At = 22
+		s.maxHeight = 23
 	case "claim":
 		s.kind = "remote"
 		exp = 20
@@ -176,6 +240,9 @@ func c13NewScenario(name string) *c13Scenario {
 		s.kind, s.userClose = "local", true
 		exp = 40
 		s.spend1At = 16
+		if s.zeroFee() {
+			s.spend1At, s.spend2At = 12, 16
+		}
 		s.preimageOf[rhash] = s.preimage
 		s.maxHeight = 17
 	case "breach":
@@ -195,16 +262,8 @@ func c13NewScenario(name string) *c13Scenario {
 	}
 	s.htlcOp = wire.OutPoint{Hash: s.closeTx.TxHash(), Index: 0}
 	s.inOp = wire.OutPoint{Hash: s.closeTx.TxHash(), Index: 1}
-	s.timeoutTx = &wire.MsgTx{
-		TxIn:  []*wire.TxIn{{PreviousOutPoint: s.htlcOp, Witness: [][]byte{{}}}},
-		TxOut: []*wire.TxOut{{}},
-	}
-	s.timeoutOut = wire.OutPoint{Hash: s.timeoutTx.TxHash(), Index: 0}
-	s.successTx = &wire.MsgTx{
-		TxIn:  []*wire.TxIn{{PreviousOutPoint: s.inOp, Witness: [][]byte{{}, {1}, {2}, {}, {3}}}},
-		TxOut: []*wire.TxOut{{}},
-	}
-	s.successOut = wire.OutPoint{Hash: s.successTx.TxHash(), Index: 0}
+	s.anchorOp = wire.OutPoint{Hash: s.closeTx.TxHash(), Index: 2}
+	c13BuildResolutions(s, rhash, exp)
 
 	switch name {
 	case "localfar":
@@ -253,26 +312,178 @@ func (s *c13Scenario) hasI() bool {
 func (s *c13Scenario) htlcResolutions() *lnwallet.HtlcResolutions {
 	res := &lnwallet.HtlcResolutions{}
 	if s.hasO() {
-		r := lnwallet.OutgoingHtlcResolution{
-			Expiry:        s.htlcs[0].RefundTimeout,
-			ClaimOutpoint: s.htlcOp,
-			SweepSignDesc: input.SignDescriptor{Output: &wire.TxOut{}},
-		}
-		if s.kind == "local" {
-			r.SignedTimeoutTx = s.timeoutTx
-			r.ClaimOutpoint = s.timeoutOut
-		}
-		res.OutgoingHTLCs = append(res.OutgoingHTLCs, r)
+		res.OutgoingHTLCs = append(res.OutgoingHTLCs, *s.outRes)
 	}
 	if s.hasI() {
-		r := lnwallet.IncomingHtlcResolution{
-			ClaimOutpoint:   s.successOut,
-			SignedSuccessTx: s.successTx,
-			SweepSignDesc:   input.SignDescriptor{Output: &wire.TxOut{}},
-		}
-		res.IncomingHTLCs = append(res.IncomingHTLCs, r)
+		res.IncomingHTLCs = append(res.IncomingHTLCs, *s.inRes)
 	}
 	return res
+}
+
+func c13Pub(b byte) *btcec.PublicKey {
+	_, pub := btcec.PrivKeyFromBytes(bytes.Repeat([]byte{b}, 32))
+	return pub
+}
+
+func c13Ctrl(cb *txscript.ControlBlock, err error) []byte {
+	if err != nil {
+		panic(err)
+	}
+	b, err := cb.ToBytes()
+	if err != nil {
+		panic(err)
+	}
+	return b
+}
+
+// c13BuildResolutions builds what lnwallet hands to the arbitrator at close time for the HTLCs "o"
+// (offered, output 0) and "i" (received, output 1) and for our anchor, per channel type:
+//   legacy   pre-signed SIGHASH_ALL second-level transactions, no sign details;
+//   anchor   second-level transactions signed SINGLE|ANYONECANPAY + SignDetails (the sweeper re-signs);
+//   taproot  as anchor, with real taproot script trees: P2TR outputs, witness scripts and control blocks in
+//            the sign descriptors and in the pre-signed witnesses (chainDetailsToWatch parses them).
+func c13BuildResolutions(s *c13Scenario, rhash lntypes.Hash, exp uint32) {
+	var (
+		sig64     = bytes.Repeat([]byte{0x5a}, 64)
+		htlcOut   = &wire.TxOut{}                       // the HTLC output "o" on the commitment
+		inOut     = &wire.TxOut{}                       // the HTLC output "i" on the commitment
+		out2      = &wire.TxOut{Value: 9000}            // second-level output of "o"
+		in2       = &wire.TxOut{Value: 19000}           // second-level output of "i"
+		toWitness = [][]byte{{}}                        // witness of the pre-signed timeout tx
+		suWitness = [][]byte{{}, {1}, {2}, {}, {3}}     // witness of the pre-signed success tx
+		oSweep    = input.SignDescriptor{}              // sweeps the output named by ClaimOutpoint of "o"
+		iSweep    = input.SignDescriptor{}
+		oBridge   = input.SignDescriptor{}              // signs the second-level tx of "o" (SignDetails)
+		iBridge   = input.SignDescriptor{}
+		anchorOut = &wire.TxOut{Value: 330, PkScript: append([]byte{0x00, 0x20}, bytes.Repeat([]byte{0x0a}, 32)...)}
+	)
+	switch s.ctype {
+	case "legacy":
+		out2, in2 = &wire.TxOut{}, &wire.TxOut{}
+	case "anchor":
+		htlcOut.PkScript = append([]byte{0x00, 0x20}, bytes.Repeat([]byte{0x01}, 32)...)
+		inOut.PkScript = append([]byte{0x00, 0x20}, bytes.Repeat([]byte{0x02}, 32)...)
+		out2.PkScript = append([]byte{0x00, 0x20}, bytes.Repeat([]byte{0x03}, 32)...)
+		in2.PkScript = append([]byte{0x00, 0x20}, bytes.Repeat([]byte{0x04}, 32)...)
+		htlcOut.Value, inOut.Value = 10, 20
+		// <0> <sender sig> <receiver sig> <0> <script>
+		toWitness = [][]byte{{}, sig64, sig64, {}, {0x51}}
+		suWitness = [][]byte{{}, sig64, sig64, {}, {0x52}}
+		oBridge = input.SignDescriptor{WitnessScript: []byte{0x51}, Output: htlcOut}
+		iBridge = input.SignDescriptor{WitnessScript: []byte{0x52}, Output: inOut}
+	case "taproot":
+		htlcOut.Value, inOut.Value = 10, 20
+		whose := lntypes.Local
+		if s.kind != "local" {
+			whose = lntypes.Remote
+		}
+		var oTree, iTree *input.HtlcScriptTree
+		var err error
+		if s.kind == "local" {
+			// offered HTLC on our commitment: we are the sender
+			oTree, err = input.SenderHTLCScriptTaproot(c13Pub(1), c13Pub(2), c13Pub(3), rhash[:], whose,
+				input.NoneTapLeaf())
+		} else {
+			// the same HTLC on the remote commitment: a received HTLC from their point of view
+			oTree, err = input.ReceiverHTLCScriptTaproot(exp, c13Pub(1), c13Pub(2), c13Pub(3), rhash[:], whose,
+				input.NoneTapLeaf())
+		}
+		if err != nil {
+			panic(err)
+		}
+		iTree, err = input.ReceiverHTLCScriptTaproot(exp, c13Pub(2), c13Pub(1), c13Pub(3), rhash[:], whose,
+			input.NoneTapLeaf())
+		if err != nil {
+			panic(err)
+		}
+		htlcOut.PkScript, inOut.PkScript = oTree.PkScript(), iTree.PkScript()
+		oCtrl := c13Ctrl(oTree.CtrlBlockForPath(input.ScriptPathTimeout))
+		iCtrl := c13Ctrl(iTree.CtrlBlockForPath(input.ScriptPathSuccess))
+		sl, err := input.TaprootSecondLevelScriptTree(c13Pub(3), c13Pub(4), 4, input.NoneTapLeaf())
+		if err != nil {
+			panic(err)
+		}
+		slCtrl := c13Ctrl(sl.CtrlBlockForPath(input.ScriptPathSuccess))
+		out2.PkScript, in2.PkScript = sl.PkScript(), sl.PkScript()
+		// <receiver sig> <local sig> <timeout_script> <control_block>
+		toWitness = [][]byte{sig64, sig64, oTree.TimeoutTapLeaf.Script, oCtrl}
+		// <sender sig> <receiver sig> <preimage> <success_script> <control_block>
+		suWitness = [][]byte{sig64, sig64, {}, iTree.SuccessTapLeaf.Script, iCtrl}
+		oBridge = input.SignDescriptor{WitnessScript: oTree.TimeoutTapLeaf.Script, Output: htlcOut,
+			ControlBlock: oCtrl, SignMethod: input.TaprootScriptSpendSignMethod}
+		iBridge = input.SignDescriptor{WitnessScript: iTree.SuccessTapLeaf.Script, Output: inOut,
+			ControlBlock: iCtrl, SignMethod: input.TaprootScriptSpendSignMethod}
+		oSweep = input.SignDescriptor{WitnessScript: sl.SuccessTapLeaf.Script, ControlBlock: slCtrl,
+			SignMethod: input.TaprootScriptSpendSignMethod}
+		iSweep = oSweep
+		if s.kind != "local" {
+			// direct sweep of the HTLC output on their commitment through the timeout path
+			oSweep = oBridge
+		}
+		anchorOut.PkScript = append([]byte{0x51, 0x20}, bytes.Repeat([]byte{0x0a}, 32)...)
+	}
+
+	s.timeoutTx = &wire.MsgTx{
+		TxIn:  []*wire.TxIn{{PreviousOutPoint: s.htlcOp, Witness: toWitness}},
+		TxOut: []*wire.TxOut{out2},
+	}
+	s.timeoutOut = wire.OutPoint{Hash: s.timeoutTx.TxHash(), Index: 0}
+	s.successTx = &wire.MsgTx{
+		TxIn:  []*wire.TxIn{{PreviousOutPoint: s.inOp, Witness: suWitness}},
+		TxOut: []*wire.TxOut{in2},
+	}
+	s.successOut = wire.OutPoint{Hash: s.successTx.TxHash(), Index: 0}
+	s.roles = map[wire.OutPoint]string{s.htlcOp: "htlc", s.inOp: "in", s.anchorOp: "anchor"}
+	s.realOut2, s.realIn2 = s.timeoutOut, s.successOut
+	if s.zeroFee() {
+		wallet := &wire.TxIn{PreviousOutPoint: wire.OutPoint{Hash: chainhash.Hash{0xaa, 0xbb}}}
+		change := &wire.TxOut{Value: 111, PkScript: []byte{0xaa, 0xaa}}
+		s.aggTimeoutTx = &wire.MsgTx{
+			TxIn:  []*wire.TxIn{wallet, s.timeoutTx.TxIn[0]},
+			TxOut: []*wire.TxOut{change, s.timeoutTx.TxOut[0]},
+		}
+		s.aggSuccessTx = &wire.MsgTx{
+			TxIn:  []*wire.TxIn{wallet, s.successTx.TxIn[0]},
+			TxOut: []*wire.TxOut{change, s.successTx.TxOut[0]},
+		}
+		s.realOut2 = wire.OutPoint{Hash: s.aggTimeoutTx.TxHash(), Index: 1}
+		s.realIn2 = wire.OutPoint{Hash: s.aggSuccessTx.TxHash(), Index: 1}
+		s.roles[s.timeoutOut], s.roles[s.successOut] = "pre2", "prein2"
+	}
+	s.roles[s.realOut2], s.roles[s.realIn2] = "out2", "in2"
+
+	// "o"
+	if oSweep.Output == nil {
+		oSweep.Output = out2
+		if s.kind != "local" {
+			oSweep.Output = htlcOut
+		}
+	}
+	s.outRes = &lnwallet.OutgoingHtlcResolution{
+		Expiry: exp, ClaimOutpoint: s.htlcOp, SweepSignDesc: oSweep,
+	}
+	if s.kind == "local" {
+		s.outRes.SignedTimeoutTx = s.timeoutTx
+		s.outRes.ClaimOutpoint = s.timeoutOut
+		if s.zeroFee() {
+			s.outRes.SignDetails = &input.SignDetails{SignDesc: oBridge,
+				SigHashType: txscript.SigHashSingle | txscript.SigHashAnyOneCanPay, PeerSig: testSig}
+		}
+	}
+	// "i" (only ever on our own commitment here)
+	iSweep.Output = in2
+	s.inRes = &lnwallet.IncomingHtlcResolution{
+		ClaimOutpoint: s.successOut, SignedSuccessTx: s.successTx, SweepSignDesc: iSweep,
+	}
+	if s.zeroFee() {
+		s.outRes.CsvDelay, s.inRes.CsvDelay = 4, 4
+		s.inRes.SignDetails = &input.SignDetails{SignDesc: iBridge,
+			SigHashType: txscript.SigHashSingle | txscript.SigHashAnyOneCanPay, PeerSig: testSig}
+		s.anchorRes = &lnwallet.AnchorResolution{
+			AnchorSignDescriptor: input.SignDescriptor{Output: anchorOut},
+			CommitAnchor:         s.anchorOp,
+		}
+	}
 }
 
 // ---- the world ---------------------------------------------------------------
@@ -330,7 +541,7 @@ type c13World struct {
 	// facts of the outside world
 	published  bool // our commitment is out
 	confirmed  bool // a commitment / coop tx is confirmed
-	sweepReq   bool
+	sweepOK    map[string]bool // outpoint role -> a signable sweep request for it has been made
 	breachDone bool
 	height     int32
 	spent      map[wire.OutPoint]*chainntnfs.SpendDetail
@@ -586,6 +797,10 @@ func (n *c13Notifier) RegisterSpendNtfn(op *wire.OutPoint, _ []byte, _ uint32) (
 	n.w.mu.Lock()
 	defer n.w.mu.Unlock()
 	c := make(chan *chainntnfs.SpendDetail, 1)
+	if !n.w.crashed && !n.w.dead {
+		// which outpoint the caller waits for (named by a table lookup)
+		n.w.emitLocked("Watch", "", "", n.w.s.role(*op), "")
+	}
 	if d, ok := n.w.spent[*op]; ok {
 		c <- d // historical dispatch
 	} else {
@@ -622,12 +837,27 @@ func (c *c13ChainIO) GetBestBlock() (*chainhash.Hash, int32, error) {
 type c13Sweeper struct{ w *c13World }
 
 func (s *c13Sweeper) SweepInput(inp input.Input, _ sweep.Params) (chan sweep.Result, error) {
+	role := s.w.s.role(inp.OutPoint())
+	cb := 0
+	if sd := inp.SignDesc(); sd != nil && len(sd.ControlBlock) > 0 {
+		cb = 1
+	}
 	s.w.mu.Lock()
-	if !s.w.crashed {
-		s.w.sweepReq = true
-		s.w.emitLocked("Sweep", "", "", "", "")
+	if !s.w.crashed && !s.w.dead {
+		// the sweeper can only ever publish what it can sign: a script-path spend of a taproot
+		// output needs the control block (our anchor is a key spend)
+		if role == "anchor" || s.w.s.ctype != "taproot" || cb == 1 {
+			s.w.sweepOK[role] = true
+		}
+		s.w.emitLocked("Sweep", "", "", role, "")
+		l := &s.w.lines[len(s.w.lines)-1]
+		l.Cb, l.Wt = cb, fmt.Sprintf("%v", inp.WitnessType())
 	}
 	s.w.mu.Unlock()
+	if role == "anchor" {
+		// not worth sweeping: the anchor resolver waits until the arbitrator stops
+		return make(chan sweep.Result), nil
+	}
 	result := make(chan sweep.Result, 1)
 	result <- sweep.Result{Tx: &wire.MsgTx{}}
 	return result, nil
@@ -786,6 +1016,11 @@ func c13Boot(t *testing.T, w *c13World, db kvdb.Backend) (*c13Inc, error) {
 		return w.durable("FinalHtlc", c13Roles[id], k, "PutFinalHtlcOutcome", func() error { return nil })
 	}
 	cfg.PutResolverReport = func(kvdb.RwTx, *channeldb.ResolverReport) error { return nil }
+	// the channel's final state (channel type!) comes from the real channel database, as in
+	// newActiveChannelArbitrator / loadPendingCloseChannels
+	cfg.FetchHistoricalChannel = func() (*chanstate.OpenChannel, error) {
+		return w.cdb.ChannelStateDB().FetchHistoricalChannel(&chanPoint)
+	}
 	cfg.MarkCommitmentBroadcasted = func(*wire.MsgTx, lntypes.ChannelParty) error {
 		return w.durable("MarkBroadcast", "", "", "MarkCommitmentBroadcasted", func() error {
 			w.bmark = true
@@ -1031,9 +1266,11 @@ func c13Drive(w *c13World, inc *c13Inc, first bool, rng *rand.Rand) error {
 		}
 
 		w.mu.Lock()
-		incubated, sweepReq := w.incubated, w.sweepReq
+		incubated := w.incubated
+		swHtlc, swOut2, swIn, swIn2 := w.sweepOK["htlc"], w.sweepOK["out2"], w.sweepOK["in"], w.sweepOK["in2"]
 		_, spent1 := w.spent[s.htlcOp]
-		_, spentIn := w.spent[s.successOut]
+		_, spentIn1 := w.spent[s.inOp]
+		_, spentIn := w.spent[s.realIn2]
 		bdone := w.breachDone
 		w.mu.Unlock()
 
@@ -1043,20 +1280,36 @@ func c13Drive(w *c13World, inc *c13Inc, first bool, rng *rand.Rand) error {
 			case s.claim:
 				// the remote party sweeps with the preimage (remote commitment:
 				// <0> <sender sig> <recvr sig> <preimage> <script>)
+				wit := [][]byte{{}, {1}, {2}, s.preimage[:], {3}}
+				if s.ctype == "taproot" {
+					// <sender sig> <receiver sig> <preimage> <success_script> <control_block>
+					wit = [][]byte{{1}, {2}, s.preimage[:], {3}, {4}}
+				}
 				tx := &wire.MsgTx{TxIn: []*wire.TxIn{{PreviousOutPoint: s.htlcOp,
-					Witness: [][]byte{{}, {1}, {2}, s.preimage[:], {3}}}}}
+					Witness: wit}}}
 				h := tx.TxHash()
 				op := s.htlcOp
 				w.spend(op, &chainntnfs.SpendDetail{SpentOutPoint: &op, SpendingTx: tx,
 					SpenderTxHash: &h, SpendingHeight: height}, "claim")
-			case s.kind == "local" && incubated:
+			case s.kind == "local" && !s.zeroFee() && incubated:
 				h := s.timeoutTx.TxHash()
 				op := s.htlcOp
 				w.spend(op, &chainntnfs.SpendDetail{SpentOutPoint: &op, SpendingTx: s.timeoutTx,
 					SpenderTxHash: &h, SpendingHeight: height}, "timeout")
-			case s.kind == "remote" && sweepReq:
+			case s.kind == "local" && s.zeroFee() && swHtlc:
+				// the sweeper's re-signed, aggregated second-level tx: another txid, our pair at index 1
+				h := s.aggTimeoutTx.TxHash()
+				op := s.htlcOp
+				w.spend(op, &chainntnfs.SpendDetail{SpentOutPoint: &op, SpendingTx: s.aggTimeoutTx,
+					SpenderTxHash: &h, SpenderInputIndex: 1, SpendingHeight: height}, "timeout")
+			case s.kind == "remote" && swHtlc:
+				wit := [][]byte{{1}, {}, {3}}
+				if s.ctype == "taproot" {
+					// <sender sig> <timeout_script> <control_block>
+					wit = [][]byte{bytes.Repeat([]byte{0x5a}, 64), {3}, {4}}
+				}
 				tx := &wire.MsgTx{TxIn: []*wire.TxIn{{PreviousOutPoint: s.htlcOp,
-					Witness: [][]byte{{1}, {}, {3}}}}}
+					Witness: wit}}}
 				h := tx.TxHash()
 				op := s.htlcOp
 				w.spend(op, &chainntnfs.SpendDetail{SpentOutPoint: &op, SpendingTx: tx,
@@ -1064,18 +1317,29 @@ func c13Drive(w *c13World, inc *c13Inc, first bool, rng *rand.Rand) error {
 			}
 		}
 		// second level of "o" on our commitment
-		if s.hasO() && s.kind == "local" && spent1 && s.spend2At > 0 && height >= s.spend2At {
-			tx := &wire.MsgTx{TxIn: []*wire.TxIn{{PreviousOutPoint: s.timeoutOut, Witness: [][]byte{{0x7}}}}}
+		if s.hasO() && s.kind == "local" && spent1 && s.spend2At > 0 && height >= s.spend2At &&
+			(!s.zeroFee() || swOut2) {
+
+			tx := &wire.MsgTx{TxIn: []*wire.TxIn{{PreviousOutPoint: s.realOut2, Witness: [][]byte{{0x7}}}}}
 			h := tx.TxHash()
-			op := s.timeoutOut
+			op := s.realOut2
 			w.spend(op, &chainntnfs.SpendDetail{SpentOutPoint: &op, SpendingTx: tx,
 				SpenderTxHash: &h, SpendingHeight: height}, "sweep2")
 		}
 		// HTLC "i": the nursery sweeps the output of our success tx
-		if s.hasI() && incubated && height >= s.spend1At && !spentIn {
-			tx := &wire.MsgTx{TxIn: []*wire.TxIn{{PreviousOutPoint: s.successOut, Witness: [][]byte{{0x8}}}}}
+		if s.hasI() && s.zeroFee() && swIn && height >= s.spend1At && !spentIn1 {
+			// the sweeper's re-signed, aggregated success tx
+			h := s.aggSuccessTx.TxHash()
+			op := s.inOp
+			w.spend(op, &chainntnfs.SpendDetail{SpentOutPoint: &op, SpendingTx: s.aggSuccessTx,
+				SpenderTxHash: &h, SpenderInputIndex: 1, SpendingHeight: height}, "successtx")
+		}
+		if s.hasI() && !spentIn && ((!s.zeroFee() && incubated && height >= s.spend1At) ||
+			(s.zeroFee() && spentIn1 && swIn2 && height >= s.spend2At)) {
+
+			tx := &wire.MsgTx{TxIn: []*wire.TxIn{{PreviousOutPoint: s.realIn2, Witness: [][]byte{{0x8}}}}}
 			h := tx.TxHash()
-			op := s.successOut
+			op := s.realIn2
 			w.spend(op, &chainntnfs.SpendDetail{SpentOutPoint: &op, SpendingTx: tx,
 				SpenderTxHash: &h, SpendingHeight: height}, "sweepin")
 		}
@@ -1125,7 +1389,8 @@ func c13SendClose(w *c13World, arb *ChannelArbitrator) {
 			UnilateralCloseSummary: &lnwallet.UnilateralCloseSummary{
 				SpendDetail: &chainntnfs.SpendDetail{SpenderTxHash: &h, SpendingTx: s.closeTx,
 					SpendingHeight: c13CloseHeight},
-				HtlcResolutions: res,
+				HtlcResolutions:  res,
+				AnchorResolution: s.anchorRes,
 			},
 			CommitSet: cs,
 		}
@@ -1134,7 +1399,8 @@ func c13SendClose(w *c13World, arb *ChannelArbitrator) {
 			SpendDetail: &chainntnfs.SpendDetail{SpendingHeight: c13CloseHeight},
 			LocalForceCloseSummary: &lnwallet.LocalForceCloseSummary{
 				CloseTx:             s.closeTx,
-				ContractResolutions: fn.Some(lnwallet.ContractResolutions{HtlcResolutions: res}),
+				ContractResolutions: fn.Some(lnwallet.ContractResolutions{HtlcResolutions: res,
+					AnchorResolution: s.anchorRes}),
 			},
 			ChannelCloseSummary: &channeldb.ChannelCloseSummary{},
 			CommitSet:           cs,
@@ -1159,7 +1425,7 @@ func c13SendClose(w *c13World, arb *ChannelArbitrator) {
 func c13Run(t *testing.T, plan c13Plan, rng *rand.Rand, mult int) ([]c13Line, int, bool, error) {
 	s := c13NewScenario(plan.Sc)
 	w := &c13World{s: s, spent: map[wire.OutPoint]*chainntnfs.SpendDetail{}, height: 1,
-		preimages: map[lntypes.Hash]lntypes.Preimage{}, mult: mult}
+		preimages: map[lntypes.Hash]lntypes.Preimage{}, mult: mult, sweepOK: map[string]bool{}}
 	for h, p := range s.preimageOf {
 		w.preimages[h] = p
 	}
@@ -1191,7 +1457,7 @@ func c13Run(t *testing.T, plan c13Plan, rng *rand.Rand, mult int) ([]c13Line, in
 	if err != nil {
 		return nil, 0, false, fmt.Errorf("channeldb: %w", err)
 	}
-	lc, _, err := lnwallet.CreateTestChannels(t, channeldb.SingleFunderTweaklessBit)
+	lc, _, err := lnwallet.CreateTestChannels(t, s.chanType())
 	if err != nil {
 		return nil, 0, false, fmt.Errorf("fixture channel: %w", err)
 	}
